@@ -559,9 +559,9 @@ IDENTS = ["joe", "~joe", "oper", "~web", "j"]
 IDENT_PATS = ["joe", "~*", "*", "j*", "?per", "~joe", "~w?b", "x*"]
 HOSTS = ["a.example.org", "b.example.org", "trusted.net", "x.y.z", ""]
 HOST_PATS = ["*.example.org", "trusted.*", "*", "?.example.org", "a.example.org", "*.net", "nomatch.*", ""]
-NETS4 = [(10, 0, 0, 0), (10, 1, 2, 3), (192, 168, 0, 77), (127, 0, 0, 1), (10, 1, 255, 255), (11, 0, 0, 0)]
+NETS4 = [(10, 0, 0, 0), (10, 1, 2, 3), (192, 168, 0, 77), (127, 0, 0, 1), (10, 1, 255, 255), (11, 0, 0, 0), (0, 0, 0, 0), (0, 0, 0, 0), (128, 0, 0, 0)]
 NETS6 = [0x20010db8000000000000000000000001, 0x20010db8000100000000000000000002, 0xfe800000000000000000000000010002,
-         0x20010db9000000000000000000000001]
+         0x20010db9000000000000000000000001, 0, 0xffff00000000]
 
 
 @st.composite
@@ -585,7 +585,7 @@ def mask_s(draw):
     gs = [(net >> (16 * (7 - j))) & 0xffff for j in range(8)]
     k = draw(st.integers(0, 2))
     if k == 0:
-        n = draw(st.sampled_from([0, 1, 15, 16, 17, 31, 32, 33, 47, 48, 64, 127, 128]))
+        n = draw(st.sampled_from([0, 1, 8, 15, 16, 17, 31, 32, 33, 47, 48, 64, 80, 96, 97, 104, 127, 128]))
         return ":".join("%x" % g for g in gs) + "/%d" % n, net, n
     if k == 1:
         ng = draw(st.integers(1, 4))
@@ -654,8 +654,11 @@ def c11_s(draw, pid, tier, opts=None):
             net, bits = draw(st.sampled_from(masks))
             v = net
             if bits < 128:
-                low = draw(st.integers(0, (1 << min(16, 128 - bits)) - 1))
-                v = (net >> (128 - bits) << (128 - bits)) | low
+                free = 128 - bits
+                low = draw(st.integers(0, (1 << min(32, free)) - 1))
+                v = (net >> free << free) | low
+                if free > 32 and (net >> 32) == 0 and draw(st.booleans()):
+                    v |= 0xffff << 32          # an IPv4 client inside a very wide (e.g. ::/8, ::/80) network
             if k == 2 and bits > 0:
                 v ^= 1 << (128 - bits)          # flip the last prefix bit: just outside
             if (v >> 32) != 0xffff and (v >> 32) == 0:
